@@ -320,6 +320,16 @@ def gen_bin_cases(ctx, per_cell):
                     x = [k, gen_value(rng, k), rng.choice(units_of(k))]
                     return with_alias(rng, via_inplace(rng, x)) if sign_ok(k, x[1]) else x
                 cases.append({'t': 'bin', 'op': op, 'a': operand(ka), 'b': operand(kb)})
+            if valid and op == 'div' and ka != 'num' and kb != 'num':
+                # quotients of very different magnitudes (1 ms over 1000 hours): a ratio far below 1e-9 is still the ratio
+                for _ in range(max(2, per_cell)):
+                    ua = min(units_of(ka), key=lambda x: SI[ka][x])
+                    ub = max(units_of(kb), key=lambda x: SI[kb][x])
+                    va = rng.uniform(1, 10) * 10.0 ** rng.randint(-6, 0)
+                    vb = rng.uniform(1, 10) * 10.0 ** rng.randint(0, 6)
+                    cases.append({'t': 'bin', 'op': op, 'a': [ka, va, ua], 'b': [kb, vb, ub]})
+                    cases.append({'t': 'bin', 'op': op, 'a': [ka, vb, max(units_of(ka), key=lambda x: SI[ka][x])],
+                                  'b': [kb, va, min(units_of(kb), key=lambda x: SI[kb][x])]})
             if valid and op in ('add', 'sub') and ka != 'num' and kb != 'num':
                 # exactly equal operands (x - x, and the same magnitude written in two units where that is exact)
                 for _ in range(per_cell):
